@@ -79,7 +79,7 @@ func runBin(ctx *core.Ctx, bc binCase) {
 		core.Fatalf("upstream peer: %v", err)
 	}
 	defer up.Close()
-	p, err := rig.StartBinary(ctx.Root, []string{"--proxy", "http://" + up.Addr, "--log-level", "error", "--proxy-localhost", "allow", "--deny-domains=" + strings.Join(bc.Rules, ",")}, nil)
+	p, err := startBinaryRetry(ctx.Root, []string{"--proxy", "http://" + up.Addr, "--log-level", "error", "--proxy-localhost", "allow", "--deny-domains=" + strings.Join(bc.Rules, ",")}, nil)
 	if len(inc) == 0 {
 		if err == nil {
 			p.Stop()
